@@ -53,7 +53,11 @@ def dist_case(draw):
             "memory_order": draw(st.sampled_from(["C", "C", "F", "strided"])),
             # labelling of the uniform grid: reduced to [0,360) (wrapping inside the array when t0 > 0), monotone from
             # -180, or monotone from 270 running past 360
-            "grid_labels": draw(st.sampled_from(["mod360", "mod360", "mod360", "from_minus_180", "from_270"]))}
+            "grid_labels": draw(st.sampled_from(["mod360", "mod360", "mod360", "from_minus_180", "from_270"])),
+            # an earlier call of the estimator with optional solver settings (on a broad sea, where they are harmless):
+            # settings belong to the call they are passed to
+            "prior_solver_config": draw(st.sampled_from([None, None, None, {"use_mem_when_failing_to_converge": False, "atol": 1e-6},
+                                                         {"max_iter": 2}, {"atol": 0.3}]))}
 
 
 def direction_grid(c):
@@ -96,6 +100,10 @@ def run_dist(c):
         arrs = [np.repeat(a, 2, axis=-1)[..., ::2] for a in arrs]      # same values, every second element of a buffer
     method, sm = VARIANTS[c["variant"]]
     kw = {} if sm is None else {"solution_method": sm}
+    if c.get("prior_solver_config"):
+        broad = [np.array([x]) for x in (0.3, 0.1, 0.05, 0.02)]
+        Dp = np.asarray(est(*broad, d, method="mem2", solution_method="newton", solver_config=dict(c["prior_solver_config"])))
+        require(Dp.shape == (1, N), "output_shape", f"call with solver_config: {Dp.shape}")
     D = np.asarray(est(*arrs, d, method=method, **kw))
     require(D.shape == shape + (N,), "output_shape", f"{D.shape} vs {shape + (N,)}")
     degenerate = method == "mem" and any(abs(GM.phi2_modulus(q["m"]) - 1.0) < 1e-9 for q in c["quads"])
@@ -127,6 +135,8 @@ def run_dist(c):
     classes = [f"variant_{method}_{sm}", f"shape_{len(shape)}d"] + sorted({"kind_" + q["kind"] for q in c["quads"]})
     if single:
         classes.append("float32_moments")
+    if c.get("prior_solver_config"):
+        classes.append("after_a_call_with_optional_solver_settings")
     classes.append("grid_labels_" + c.get("grid_labels", "mod360") + ("_wrapping_inside_array" if c["t0"] > 0 and c.get("grid_labels", "mod360") == "mod360" else ""))
     if order != "C" and len(shape) >= 2:
         classes.append("moments_" + order + "_layout_2plus_leading_dims")
